@@ -17,6 +17,8 @@ def files_of(prop):
                 fs.add(sec.arg.split('::')[0].strip())
     for k in registry.PROPS[prop].get('kani', []):
         fs.add(KANI_UNIT_FILE.get(k, ''))
+    for b in registry.PROPS[prop].get('bounded', []):
+        fs.add({'B17a': 'interface.rs', 'B13b': 'tts.rs'}.get(b, ''))
     return fs
 PROP_FILES = {p: files_of(p) for p in registry.PROPS}
 rows = []
